@@ -493,7 +493,16 @@ package bgp
 // from C06 (RFC 7606 7.3: NEXT_HOP is malformed unless it holds an IPv4 address): a received NEXT_HOP attribute with
 // an IPv6 address (16 octets on the wire) does not validate
 //@   ensures typeOf(a) == (*PathAttributeNextHop) && a.(*PathAttributeNextHop) != nil && a.(*PathAttributeNextHop).Value.Is6() ==> result1 != nil
+// from C07 "yields the NOTIFICATION code/subcode ... the RFCs prescribe": every error the validators raise carries an
+// RFC 4271 error code - a session reset never goes out as NOTIFICATION 0/0 (RFC 4760 7 names 3/9 for an MP attribute
+// of a family that was not negotiated)
+//@ func ValidateAttribute$1
+//@   tag C06 C07
+//@   claims at-call
+//@   at-call NewMessageError( requires arg0 != 0
 //@ func ValidateUpdateMsg
+//@   tag C06 C07
+//@   at-call NewMessageError( requires arg0 != 0
 //@   requires m != nil
 //@   claims at-return at-call inv-init inv-keep
 //@   loop 0 invariant strongestError == nil || isMsgErr(strongestError)
